@@ -4,7 +4,7 @@ from pyvc.native import *      # noqa: F401,F403
 CONTEXT_FILE = 'frappy/logging.py'
 SOURCES = ['frappy/logging.py', 'frappy/errors.py']
 GHOSTS = ['log_sent', 'removed']
-UFS = {'DIRLIST': (['val'], 'val', 'ScandirIter')}
+UFS = {'SENT_MOD': (['val'], 'str'), 'SENT_LEVEL': (['val'], 'str'), 'DIRLIST': (['val'], 'val', 'ScandirIter'), 'GOT': (['val', 'val'], 'bool')}
 ASSUMPTIONS = [
     'A3/A6/A7 as for the other properties',
     'mlzlog.LOGLEVELS is {debug: 10, info: 20, warning: 30, error: 40}; with off=99 and comlog=15 these are the level tables'
@@ -99,6 +99,23 @@ def Delivered(h, record, ls0, ls1):
             and forall_obj(lambda c: implies(c in subs and subs[c] <= record.levelno, SentTo(new, c, record.name, name))))
 
 
+def GotView(ls1, ls0, conn):
+    return forall_obj(lambda c: GOT(ls1, c) == (GOT(ls0, c) or same_object(c, conn)))
+
+
+def Routed(subs, record, ls0, ls1):
+    """a connection received a message during this call exactly when the record's module is one it enabled and the record's
+    level is at or above the level it chose (GOT is the membership view of the delivery log)"""
+    if record.name not in subs:
+        return ls1 == ls0
+    inner = subs[record.name]
+    return forall_obj(lambda c: GOT(ls1, c) == (GOT(ls0, c) or (c in inner and inner[c] <= record.levelno)))
+
+
+def RoutedSoFar(inner, done, record, ls0, ls1):
+    return forall_obj(lambda c: GOT(ls1, c) == (GOT(ls0, c) or (c in done and c in inner and inner[c] <= record.levelno)))
+
+
 def RolloverRemoves(h, rem0, rem1):
     """with retention N > 0 exactly the files before the N last ones (sorted, `current` link excluded) are removed"""
     if h.max_days == 0:
@@ -116,7 +133,10 @@ CONTRACTS = [
     # the per-connection callback of the dispatcher: records the delivery
     dict(key='send_log', file=None, func=None, packed_args=True, serves=[], trusted=True, requires=[],
          ghost_modifies=['log_sent'],
-         ensures={'logged': 'log_sent == old(log_sent) + [(nth(args, 0), nth(args, 1), nth(args, 2))]'}, raises='never'),
+         ensures={'logged': 'log_sent == old(log_sent) + [(nth(args, 0), nth(args, 1), nth(args, 2))]',
+                  # GOT(log, c): connection c received a message of this log (defining equation of the view, per append)
+                  'view': 'GotView(log_sent, old(log_sent), nth(args, 0))',
+                  'about': 'nth(args, 1) == SENT_MOD(log_sent) and nth(args, 2) == SENT_LEVEL(log_sent)'}, raises='never'),
     dict(key='LogRecord.getMessage', file=None, func=None, signature='self', serves=[], trusted=True, requires=[],
          ensures={'text': 'is_str(result)'}, raises='never', result_kind='str'),
     dict(key='RemoteLogHandler.set_conn_level', file='frappy/logging.py', func='RemoteLogHandler.set_conn_level', serves=['C20'],
@@ -127,6 +147,12 @@ CONTRACTS = [
                   'other_conns': 'OtherConnsSame(self, old(InnerOf(self.subscriptions, modname)), modname, conn)'},
          raises={'cls': 'issubclass(exc, ValueError) or (issubclass(exc, TypeError) and not is_hashable(level))', 'invalid': 'not ValidLevel(level)',
                  'untouched': "unchanged('subscriptions') and self.subscriptions == old(self.subscriptions)"}),
+    dict(key='RemoteLogHandler.handle[vc]', file='frappy/logging.py', func='RemoteLogHandler.handle', serves=['C20'],
+         self_type='RemoteLogHandler', params={'record': 'LogRecord'},
+         requires=['inv(self)', 'inv(record)', 'record.levelno in LEVEL_NAMES', "'.' not in record.name"],
+         module_values={'LEVEL_NAMES': LEVEL_NAMES}, ghost_modifies=['log_sent'],
+         ensures={'exactly_the_subscribers': 'Routed(self.subscriptions, record, old(log_sent), log_sent)'},
+         raises='never'),
     dict(key='RemoteLogHandler.handle', vc=False, file='frappy/logging.py', func='RemoteLogHandler.handle', serves=['C20'],
          self_type='RemoteLogHandler', params={'record': 'LogRecord'},
          requires=['inv(self)', 'inv(record)', 'record.levelno in LEVEL_NAMES', "'.' not in record.name"],
@@ -148,7 +174,7 @@ CONTRACTS = [
 LOOPS = {
     'LogfileHandler.doRollover#0': dict(header='files[:-self.max_days]',
         invariant={'removed': 'removed == old(removed) + list(seq__[:i__])'}),
-    'RemoteLogHandler.handle#0': dict(header='subscriptions.items()',
-        invariant={'sofar': 'DeliveredSoFar(subscriptions, done__, record, modname, old(log_sent), log_sent)'}),
+    'RemoteLogHandler.handle#0': dict(header='subscriptions.items()', ghost=['log_sent'],
+        invariant={'sofar': 'RoutedSoFar(subscriptions, done__, record, old(log_sent), log_sent)'}),
 }
 register(globals())
